@@ -164,12 +164,30 @@ def run_paths(form: dict) -> dict:
             P.append(("p2-xform", "XForm of the reloaded survey differs", c16_obs.diff_items(x0, x2)))
     except Exception as e:  # noqa: BLE001
         P.append(("p2-reload-crash", f"{type(e).__name__}: {e} @ {site_of(e)}", None))
-    # dump of the converted survey after xml(): F36 grows `namespaces` (C14's business; recorded only)
+    # ---- path 3: the dump of the survey that has already generated its XForm (xml() leaves state behind in the
+    # survey: search() itemsets, namespaces).  Only when it differs from the dump taken before: it must still load
+    # and give the same XForm.
     try:
         jb = r["_survey"].to_json_dict()
         out["dump_after_xml_equal"] = jb == j1
-    except Exception:  # noqa: BLE001
+    except Exception as e:  # noqa: BLE001
         out["dump_after_xml_equal"] = None
+        P.append(("p3-dump-crash", f"{type(e).__name__}: {e} @ {site_of(e)}", None))
+        return out
+    if jb != j1:
+        try:
+            s3 = create_survey_element_from_json(json.dumps(jb))
+        except Exception as e:  # noqa: BLE001
+            P.append(("p3-load-crash", f"{type(e).__name__}: {e} @ {site_of(e)}",
+                      {"exc": type(e).__name__, "arg": str(e), "site": site_of(e)}))
+            return out
+        try:
+            x3 = to_xml(s3)
+            if x3 != x0:
+                P.append(("p3-xform", "XForm of the survey reloaded from the dump taken after to_xml() differs",
+                          c16_obs.diff_items(x0, x3)))
+        except Exception as e:  # noqa: BLE001
+            P.append(("p3-reload-crash", f"{type(e).__name__}: {e} @ {site_of(e)}", None))
     return out
 
 
@@ -375,6 +393,18 @@ def m_osm_dump_crash(f: Failure) -> bool:
     )
 
 
+def m_search_dump_after_xml(f: Failure) -> bool:
+    """Survey._redirect_is_search_itext (run by xml()) empties the `itemset` of a search() select so that its
+    choices are written in-line; the dump taken afterwards therefore has `children` but no `itemset`, and
+    builder._create_question_from_dict indexes d['itemset'] for every question with children."""
+    x = f.extra
+    return (
+        f.kind == "p3-load-crash" and x.get("exc") == "KeyError" and "itemset" in str(x.get("arg"))
+        and "builder.py:_create_question_from_dict" in str(x.get("site"))
+        and any("search(" in str(r.get("appearance", "")) for r in f.case["form"].get("survey", []))
+    )
+
+
 def _with_derived(fid, m):
     return lambda f: f.extra.get("derived_from") == fid or (not f.extra.get("derived_from") and m(f))
 
@@ -383,6 +413,7 @@ MATCHERS = {
     "F39-osm-question-dump-crash": m_osm_dump_crash,
     "F40-add-none-option-shared-list": m_none_shared_list,
     "F41-add-none-option-reapplied-on-reload": m_none_reapplied,
+    "F47-search-select-dump-after-xml-not-reloadable": m_search_dump_after_xml,
 }
 MATCHERS = {k: _with_derived(k, v) for k, v in MATCHERS.items()}
 
@@ -425,7 +456,7 @@ def form_case(ctx, form, origin="gen", model=True):
     clean = True
     for kind, detail, info in obs["problems"]:
         clean = False
-        if kind in ("p1-xform", "p2-xform") and info:
+        if kind in ("p1-xform", "p2-xform", "p3-xform") and info:
             classified = [classify_item(item, obs) for item in info]
             # a language that disappears (or appears) altogether takes its padding ('-') entries with it: such an item
             # is attributed to the finding that removed the language's real entries, provided every
@@ -681,6 +712,14 @@ def directed_forms():
     yield "add-none-option-shared", {"survey": [{"type": "select_multiple l", "name": "s", "label": "S", "constraint": ". != 'b'"},
                                                 {"type": "select_multiple l", "name": "s2", "label": "S2"}], "choices": ch[1:],
                                      "settings": [{"add_none_option": "true"}]}
+    yield "search-select", {"survey": [{"type": "select_one l", "name": "s", "label": "S", "appearance": "search('fruits')"}],
+                            "choices": ch[1:]}
+    # extra choices columns named like structural keys of the element classes (a cascade column is usually `parent`)
+    yield "choice-column-parent", {"survey": [{"type": "select_one r", "name": "region", "label": "R"},
+                                              {"type": "select_one l", "name": "s", "label": "S", "choice_filter": "parent = ${region}"}],
+                                   "choices": [{"list_name": "r", "name": "n", "label": "N"},
+                                               {"list_name": "l", "name": "a", "label": "A", "parent": "n", "extra_data": "e1"},
+                                               {"list_name": "l", "name": "b", "label": "B", "parent": "n", "children": "c"}]}
     yield "group-appearance-only", {"survey": [{"type": "begin group", "name": "g", "label": "G", "appearance": "field-list"},
                                                {"type": "select_one l", "name": "s", "label": "S", "parameters": "randomize=true seed=3"},
                                                {"type": "end group"}], "choices": ch[1:]}
